@@ -369,7 +369,12 @@ func (g *gen) sprintf(st *state, c *ssa.CallCommon, a []string) string {
 	}
 	sig += ") String"
 	g.declareFun(fn, sig)
-	return g.define("sprintf", "String", app(fn, append([]string{a[0]}, elems...)...))
+	r := g.define("sprintf", "String", app(fn, append([]string{a[0]}, elems...)...))
+	if len(elems) == 1 {
+		// a format that is not a constant: when it turns out to be "%v" the value is printed plainly
+		g.assert(sImp(sEq(a[0], `"%v"`), sEq(r, app("sprintv", elems[0]))))
+	}
+	return r
 }
 
 func (g *gen) needSprintv() {
@@ -378,11 +383,12 @@ func (g *gen) needSprintv() {
 	}
 	g.declared["sprintv"] = true
 	it := g.sorts.typeTag(types.Typ[types.Int])
+	it64 := g.sorts.typeTag(types.Typ[types.Int64])
 	st := g.sorts.typeTag(types.Typ[types.String])
 	g.sorts.boxSorts["String"] = true
 	g.vc.Decls = append(g.vc.Decls, "(declare-fun sprintv (Iface) String)")
 	g.vc.Asserts = append(g.vc.Asserts,
-		fmt.Sprintf("(forall ((x Iface)) (! (and (=> (= (i.typ x) %s) (= (sprintv x) (itoa (i.val x)))) (=> (= (i.typ x) %s) (= (sprintv x) (unbox.String (i.val x))))) :pattern ((sprintv x))))", it, st),
+		fmt.Sprintf("(forall ((x Iface)) (! (and (=> (or (= (i.typ x) %s) (= (i.typ x) %s)) (= (sprintv x) (itoa (i.val x)))) (=> (= (i.typ x) %s) (= (sprintv x) (unbox.String (i.val x))))) :pattern ((sprintv x))))", it, it64, st),
 		"(forall ((i Int)) (! (= (box.String (unbox.String i)) i) :pattern ((unbox.String i))))",
 	)
 }
